@@ -89,7 +89,7 @@ package ipfix
 //@   ensures err == nil ==> len(tr.FieldSpecifiers) == old(len(tr.FieldSpecifiers)) + tr.FieldCount && len(tr.ScopeFieldSpecifiers) == old(len(tr.ScopeFieldSpecifiers))
 //@   ensures err == nil ==> r.count >= old(r.count) + 4 + 4*tr.FieldCount
 //@   modifies tr, r.data, r.count
-//@   loop 1 @ for i > 0
+//@   loop 1 @ for i > 0 #10924e54
 //@     invariant rdr(r) && r.base == old(r.base) && tr != nil
 //@     invariant 0 <= i && i <= th.FieldCount && tr.TemplateID == th.TemplateID && tr.FieldCount == th.FieldCount
 //@     invariant th.TemplateID == be16(r.base, old(r.count)) && th.FieldCount == be16(r.base, old(r.count)+2)
@@ -105,13 +105,13 @@ package ipfix
 //@   ensures err == nil ==> r.count >= old(r.count) + 6 && tr.TemplateID == be16(r.base, old(r.count)) && tr.FieldCount == be16(r.base, old(r.count)+2) && tr.ScopeFieldCount == be16(r.base, old(r.count)+4)
 //@   ensures [lengths] err == nil ==> len(tr.ScopeFieldSpecifiers) == old(len(tr.ScopeFieldSpecifiers)) + tr.ScopeFieldCount && len(tr.FieldSpecifiers) == old(len(tr.FieldSpecifiers)) + (tr.FieldCount - tr.ScopeFieldCount) % 65536
 //@   modifies tr, r.data, r.count
-//@   loop 1 @ for i > 0
+//@   loop 1 @ for i > 0 #a5a220df
 //@     invariant rdr(r) && r.base == old(r.base) && tr != nil && r.count >= old(r.count) + 6
 //@     invariant tr.TemplateID == be16(r.base, old(r.count)) && tr.FieldCount == be16(r.base, old(r.count)+2) && tr.ScopeFieldCount == be16(r.base, old(r.count)+4)
 //@     invariant 0 <= i && i <= th.ScopeFieldCount && th.ScopeFieldCount == tr.ScopeFieldCount && th.FieldCount == tr.FieldCount && len(tr.ScopeFieldSpecifiers) == old(len(tr.ScopeFieldSpecifiers)) + (th.ScopeFieldCount - i) && len(tr.FieldSpecifiers) == old(len(tr.FieldSpecifiers))
 //@     step [scope] specAppended(tr.ScopeFieldSpecifiers, iter(tr.ScopeFieldSpecifiers), r, iter(r.count)) && tr.FieldSpecifiers == iter(tr.FieldSpecifiers)
 //@     decreases i
-//@   loop 2 @ for i > 0
+//@   loop 2 @ for i > 0 #10924e54
 //@     invariant rdr(r) && r.base == old(r.base) && tr != nil && r.count >= old(r.count) + 6
 //@     invariant tr.TemplateID == be16(r.base, old(r.count)) && tr.FieldCount == be16(r.base, old(r.count)+2) && tr.ScopeFieldCount == be16(r.base, old(r.count)+4)
 //@     invariant 0 <= i && i <= (th.FieldCount - th.ScopeFieldCount) % 65536 && th.ScopeFieldCount == tr.ScopeFieldCount && th.FieldCount == tr.FieldCount && len(tr.ScopeFieldSpecifiers) == old(len(tr.ScopeFieldSpecifiers)) + th.ScopeFieldCount && len(tr.FieldSpecifiers) == old(len(tr.FieldSpecifiers)) + ((th.FieldCount - th.ScopeFieldCount) % 65536 - i)
@@ -158,7 +158,7 @@ package ipfix
 //@   ensures [progress] err == nil ==> d.reader.count > old(d.reader.count)
 //@   ensures err != nil ==> len(result) == 0
 //@   modifies d.reader.data, d.reader.count
-//@   loop 1 @ for i < len(tr.ScopeFieldSpecifiers)
+//@   loop 1 @ for i < len(tr.ScopeFieldSpecifiers) #a857fd1c
 //@     invariant rdr(d.reader) && d.reader.base == old(d.reader.base) && d.raddr == old(d.raddr) && d.reader.count >= old(d.reader.count) && r == d.reader
 //@     invariant 0 <= i && i <= len(tr.ScopeFieldSpecifiers) && len(fields) == i
 //@     step [model] fdModel(tr.ScopeFieldSpecifiers[i], m)
@@ -167,7 +167,7 @@ package ipfix
 //@     step [advance] fdAdvance(tr.ScopeFieldSpecifiers[i], m, readLength, d.reader, iter(d.reader.count))
 //@     step [value] fdValue(fields[len(fields)-1], tr.ScopeFieldSpecifiers[i], m, readLength, d.reader)
 //@     decreases len(tr.ScopeFieldSpecifiers) - i
-//@   loop 2 @ for i < len(tr.FieldSpecifiers)
+//@   loop 2 @ for i < len(tr.FieldSpecifiers) #8bb4d76d
 //@     invariant rdr(d.reader) && d.reader.base == old(d.reader.base) && d.raddr == old(d.raddr) && d.reader.count >= old(d.reader.count) && r == d.reader
 //@     invariant 0 <= i && i <= len(tr.FieldSpecifiers) && len(fields) == len(tr.ScopeFieldSpecifiers) + i
 //@     step [model] fdModel(tr.FieldSpecifiers[i], m)
@@ -187,9 +187,9 @@ package ipfix
 //@   names tr _ n _ f _ f
 //@   ensures result >= 1
 //@   ensures [trusted.def] result == specMinRec(tr)
-//@   loop 1 @ range tr.ScopeFieldSpecifiers
+//@   loop 1 @ range tr.ScopeFieldSpecifiers #8fdc8587
 //@     invariant 0 <= n && n <= 65535 * range_i
-//@   loop 2 @ range tr.FieldSpecifiers
+//@   loop 2 @ range tr.FieldSpecifiers #8fdc8587
 //@     invariant 0 <= n && n <= 65535 * (len(tr.ScopeFieldSpecifiers) + range_i)
 
 // ---- sets and messages --------------------------------------------------------------------------
@@ -216,7 +216,7 @@ package ipfix
 //@   ensures [unknown] old(len(d.reader.data)) >= 4 && be16(d.reader.base, old(d.reader.count)) > 255 && !cacheHas(old(mem), d.raddr, be16(d.reader.base, old(d.reader.count))) ==> len(msg.DataSets) == old(len(msg.DataSets)) && err != nil
 //@   ensures [tplset] old(len(d.reader.data)) >= 4 && be16(d.reader.base, old(d.reader.count)) <= 3 ==> len(msg.DataSets) == old(len(msg.DataSets))
 //@   modifies d.reader.data, d.reader.count, msg.DataSets, contents(mem)
-//@   loop 1 @ for err == nil && setHeader.Length > uint16(d.reader.ReadCount() - startCount) && d.reader.Len() >= minLen && int(setHeader.Length - uint16(d.reader.ReadCount() - startCount)) >= minLen
+//@   loop 1 @ for err == nil && setHeader.Length > uint16(d.reader.ReadCount() - startCount) && d.reader.Len() >= minLen && int(setHeader.Length - uint16(d.reader.ReadCount() - startCount)) >= minLen #a896b6bf
 //@     invariant [rdr] rdr(d.reader) && d.reader.base == old(d.reader.base)
 //@     invariant [raddr] d.raddr == old(d.raddr) && msg != nil && setHeader != nil
 //@     invariant [wf] wellFormed(mem)
@@ -243,7 +243,7 @@ package ipfix
 //@   ensures result != nil ==> jssafe(result.AgentID) && result.AgentID == ipText(d.raddr)
 //@   ensures [records] result != nil ==> len(result.DataSets) <= len(old(d.reader.base))
 //@   modifies d.reader.data, d.reader.count, contents(mem)
-//@   loop 1 @ for d.reader.Len() > 4
+//@   loop 1 @ for d.reader.Len() > 4 #81c0f97e
 //@     invariant jssafe(msg.AgentID) && msg.AgentID == ipText(d.raddr) && d.raddr == old(d.raddr)
 //@     invariant rdr(d.reader) && d.reader.base == old(d.reader.base) && msg != nil && wellFormed(mem) && d.reader.count >= 16
 //@     invariant mhdrAt(msg.Header, d.reader.base, 0)
@@ -256,7 +256,7 @@ package ipfix
 //@   requires forall i :: 0 <= i && i < len(errorSlice) ==> errorSlice[i] != nil
 //@   ensures len(errorSlice) == 0 ==> err == nil
 //@   ensures len(errorSlice) > 0 ==> err != nil
-//@   loop 1 @ range errorSlice
+//@   loop 1 @ range errorSlice #7a351ce4
 //@     invariant true
 
 // ---- interpretation -----------------------------------------------------------------------------
@@ -369,10 +369,10 @@ package ipfix
 //@   slot I m.DataSets[i][j].ID
 //@   slot E m.DataSets[i][j].EnterpriseNo
 //@   modifies b
-//@   loop 1 @ range m.DataSets
+//@   loop 1 @ range m.DataSets #916dc059
 //@     invariant b != nil && dsLength == len(m.DataSets) && err == nil
 //@     invariant b.js == jsset(pre(b.js), range_i == 0 ? 1 : (range_i < len(m.DataSets) ? 0 : 5)) && pre(b.js).Dp >= 1 && pre(b.js).Dp <= 3 && jstop(pre(b.js)) == 2
-//@   loop 2 @ range m.DataSets[i]
+//@   loop 2 @ range m.DataSets[i] #16d28c1a
 //@     invariant b != nil && 0 <= i && i < len(m.DataSets) && length == len(m.DataSets[i]) && dsLength == len(m.DataSets) && err == nil
 //@     invariant b.js == jsset(pre(b.js), range_i == 0 ? 1 : (range_i < len(m.DataSets[i]) ? 0 : 5)) && pre(b.js).Dp >= 1 && pre(b.js).Dp <= 4 && jstop(pre(b.js)) == 2
 
@@ -406,7 +406,7 @@ package ipfix
 //@   opt replayprobe result.retrieve(300, net.IP{10, 0, 0, 1})
 //@   opt replayimports net
 //@   ensures wellFormed(result)
-//@   loop 1 @ for i < shardNo
+//@   loop 1 @ for i < shardNo #ce838e32
 //@     invariant 0 <= i && i <= 32 && len(m) == 32 && (forall j :: m.off <= j && j < m.off + i ==> m.arr[j] != nil && !m.arr[j].Templates.isnil && len(m.arr[j].Templates) == 0)
 //@     decreases 32 - i
 
@@ -414,7 +414,7 @@ package ipfix
 //@   names m _ _ shard
 //@   opt nolock called from GetCache on a cache that is not shared yet
 //@   ensures result ==> wellFormed(m)
-//@   loop 1 @ range m
+//@   loop 1 @ range m #254612b5
 //@     invariant len(m) == 32 && (forall j :: m.off <= j && j < m.off + range_i ==> m.arr[j] != nil && !m.arr[j].Templates.isnil)
 
 // the loader's specification (C20): when a file was read, the model is exactly the set of file entries with at
@@ -429,11 +429,11 @@ package ipfix
 //@   exitassert [loader.complete] result == nil ==> InfoModel == old(InfoModel) || (forall pen uint32, id uint16 :: fileEntry(ipfixElements, pen, id) ==> loadedEntry(ipfixElements, pen, id))
 //@   exitassert [loader.sound] result == nil ==> InfoModel == old(InfoModel) || (forall k ElementKey :: has(InfoModel, k) ==> fileEntry(ipfixElements, k.EnterpriseNo, k.ElementID))
 //@   exitassert [loader.error] result != nil ==> InfoModel == old(InfoModel)
-//@   loop 1 @ range ipfixElements
+//@   loop 1 @ range ipfixElements #cbed2bf3
 //@     invariant !InfoModel.isnil
 //@     invariant forall pen uint32, id uint16 :: visited(pen) && fileEntry(ipfixElements, pen, id) ==> loadedEntry(ipfixElements, pen, id)
 //@     invariant forall k ElementKey :: has(InfoModel, k) ==> visited(k.EnterpriseNo) && fileEntry(ipfixElements, k.EnterpriseNo, k.ElementID)
-//@   loop 2 @ range elements
+//@   loop 2 @ range elements #f1bd2daf
 //@     invariant !InfoModel.isnil
 //@     invariant forall pen uint32, id uint16 :: (visited1(pen) || (pen == PEN && visited(id))) && fileEntry(ipfixElements, pen, id) ==> loadedEntry(ipfixElements, pen, id)
 //@     invariant forall k ElementKey :: has(InfoModel, k) ==> (visited1(k.EnterpriseNo) || (k.EnterpriseNo == PEN && visited(k.ElementID))) && fileEntry(ipfixElements, k.EnterpriseNo, k.ElementID)
@@ -442,9 +442,9 @@ package ipfix
 //@ func (MemCache).Dump
 //@   names m cacheFile _ _ shard b err _ shard
 //@   requires wellFormed(m)
-//@   loop 1 @ range m
+//@   loop 1 @ range m #75a72e05
 //@     acquires m R
-//@   loop 2 @ range m
+//@   loop 2 @ range m #f126e5cd
 //@     releases m
 
 //@ func NewRPC
